@@ -211,6 +211,15 @@ Definition SyncP (c : cfg) (s : scr) (t : term) : Prop :=
 (* histories in partial display mode: draws, clear(), frames abandoned by a SIGWINCH that arrives while
    the frame is produced (followed by the acknowledgement of the resize; the terminal keeps its size).
    [last] = the canvas drawn by the last event, if that event was a completed draw *)
+(* what a size change may do to the terminal in partial display mode for the Screen's bookkeeping to stay
+   valid: any new size with room for the used rows, any content in the used rows, the cursor still on row
+   _cy, the lines below _rows_used blank, the modes kept *)
+Definition resized_partial (s : scr) (t t' : term) : Prop :=
+  term_ok t' /\ t_irm t' = t_irm t /\ t_so t' = t_so t /\ t_ibm t' = t_ibm t /\ t_g1 t' = t_g1 t /\
+  t_scrolled t' = t_scrolled t /\ t_bce t' = t_bce t /\
+  t_y t' = t_y t /\ t_y t' < t_rows t' /\
+  (forall ru, s_ru s = Some ru -> ru < t_rows t' /\ forall y, ru < y < t_rows t' -> blank_row_text (get_row (t_grid t') y)).
+
 Inductive ReachP (c : cfg) : scr -> term -> option canvas -> Prop :=
   | RP_start cols rows : 1 <= cols -> 1 <= rows -> ReachP c (init_scr true) (new_term cols rows) None
   | RP_draw s t last content cursor toks s' :
@@ -223,7 +232,10 @@ Inductive ReachP (c : cfg) : scr -> term -> option canvas -> Prop :=
       ReachP c s t last ->
       canvas_ok c (t_cols t) (t_rows t) content -> cursor_ok (t_cols t) (t_rows t) cursor ->
       draw_screen c s (t_cols t) (t_rows t) content cursor false true = Ok (toks, s') ->
-      ReachP c (ack s') (run t toks) None.
+      ReachP c (ack s') (run t toks) None
+  | RP_resize s t last t' :          (* SIGWINCH delivered and acknowledged; see resized_partial *)
+      ReachP c s t last -> resized_partial s t t' ->
+      ReachP c (ack (winch s)) t' None.
 
 (* ---------- any decodable text (statement kept in full; refuted, see Properties/C04.v) ---------- *)
 Definition chr_any (utf8 : bool) (ch : chr) : Prop :=
